@@ -1,89 +1,81 @@
 """Configuration of ./check for C19 (see tools/props.py)."""
 ENTRY = {'coq_dir': 'C19',
  'harness': 'c19',
- 'coq_deps': ['C18', 'C03'],
- 'cases': {'quick': 13000, 'thorough': 330000},
+ 'coq_deps': ['C18', 'C03', 'C02', 'C04'],
+ 'cases': {'quick': 11000, 'thorough': 300000},
  'harness_timeout': 3000,
  'consts': ['C19_KAD_MAX_ADDRESSES', 'C19_KAD_DEFAULT_MAX_MESSAGE_SIZE', 'C19_IDENTIFY_PAYLOAD_SIZE',
-            'C19_BITSWAP_MAX_MESSAGE_SIZE', 'C03_MAX_PROTOCOLS', 'C03_MAX_LEN_BYTES', 'REPLICATION_FACTOR',
-            'MAX_INLINE_KEY_LENGTH', 'MULTIHASH_IDENTITY_CODE', 'PEER_ID_MULTIHASH_SIZE'],
+            'C19_BITSWAP_MAX_MESSAGE_SIZE', 'C19_WEBRTC_MAX_FRAME_SIZE', 'C03_MAX_PROTOCOLS', 'C03_MAX_LEN_BYTES',
+            'REPLICATION_FACTOR', 'MAX_INLINE_KEY_LENGTH', 'MULTIHASH_IDENTITY_CODE', 'PEER_ID_MULTIHASH_SIZE',
+            'MAX_NOISE_MSG_LEN', 'MAX_FRAME_LEN', 'BACKPRESSURE_BOUNDARY'],
  'nontrivial_min_trace': 6,
- 'rule': 'the driver generates byte strings and hands each to a WORKER PROCESS (same binary) that computes the oracle dictionary, runs '
-         'the real litep2p decoder under catch_unwind with a #[global_allocator] counter (peak bytes allocated during the call) and '
-         'answers with the completed case and the trace; a worker that dies (abort, stack overflow, failed allocation) or is silent for '
-         '10 s yields the trace ABORT / TIMEOUT and is replaced. Three streams: (i) corpus/C19 witnesses; (ii) systematic: for fixed '
-         'seeds of every kind EVERY truncation offset and, for every length-delimited node of the protobuf tree, the declared length '
-         'replaced by 0/1/127/128/2^14/2^32-1/2^63/2^64-1; unknown-group and nested-message depth bombs of depth '
-         '1/50/98..102/500 at top level and inside Peer / Wantlist.Entry / NoiseExtensions; ls responses of 999/1000/1001 protocols; '
-         'every extreme frame length in natural, 9-, 10- and 11-byte form under limits {64, 70 KiB} with and without data behind it; '
-         'message-based multistream payloads (webrtc_listener_negotiate with header_received in {false,true}, WebRtcDialerState::register_response '
-         'in one or two payloads) whose first message, or second message after a valid header, declares every extreme length incl. '
-         'usize::MAX-k for k in 0..16 (natural and 10-byte form, body kept or dropped), and every truncation of header+proposal / '
-         'proposal / header+na; ls responses with every extreme entry length; the extreme set everywhere is '
-         '0/1/127/128/2^14/2^32-1/2^63/2^64-1 plus 2^64-1-k, k in 1..15; '
-         '(iii) seeded random cases from protobuf-aware tree generators (Kademlia Message/Record/Peer with valid and invalid peer ids, '
-         'valid/invalid/foreign-/p2p multiaddresses, 31..65 addresses per peer, 18-30 peers, connection types out of range; keys.proto; '
-         'noise payload with extensions; identify; bitswap wantlist/blocks/payload prefixes/presences) mutated at tree level (duplicate, '
-         'swap, drop, wrong wire type, unknown fields incl. field numbers 0 / 2^29-1 / 2^29, fixed32/64, groups, unbalanced end-group, '
-         'non-minimal and 10/11-byte varints, invalid UTF-8 of every class, renumbering) and at byte level (bit flips, insert/delete, '
-         'truncation, extreme varint overwrite, self-splice), multistream messages, varint-framed streams under limits {64, 1024, 70 KiB}, '
-         'prefix / peer-id / multiaddress strings, and round trips of VALUES through the library encoders (the nine KademliaMessage '
-         'constructors, multistream Message::encode of all five kinds, PublicKey::to_protobuf_encoding, prost encode of identify / bitswap '
-         '/ noise payload, Prefix::to_bytes, the Substream sink). Mix: 28% Kademlia, 8% multistream Message, 4% message-based multistream (listener/dialer), 10% frames, 3% read_payload_size, '
-         '5% keys, 5% noise, 10% identify, 10% bitswap, 3% prefix, 2% peer id, 3% multiaddr, 9% round trips. Trace = status, allocation '
-         'verdict (bound if peak <= bound else the peak), capped collection size, canonical dump of the RAW prost struct (via the '
-         're-exported generated types) and of the post-processed result; compared with the extracted Coq model. prop_ok judges the '
-         'implementation trace itself: returned (no PANIC/ABORT/TIMEOUT), peak allocation within the stated bound, |peers| <= k / '
-         '|protocols| <= 1000 / frame length <= max, and for round trips the decoded dump equals the encoded value; a case is '
-         'non-trivial when its trace has >= 6 numbers',
- 'trusted_base': ['prost 0.13.5 is modelled from its source as read (decode_varint, decode_key, skip_field incl. groups and '
-                  'RECURSION_LIMIT = 100, merge_loop, bytes/string/message merge, field order of the derive encoder); the tie is the '
-                  'differential run on the RAW decoded structs, not a proof about prost; the constant 100 is transcribed, not read '
-                  'from the crate',
-                  'third-party parsers enter as an oracle dictionary computed by the harness with the same library calls the '
-                  'implementation makes: Multiaddr::try_from (+ is_empty, trailing /p2p id), ed25519 VerifyingKey::from_bytes, '
-                  'Cid::read_bytes, multihash Code::try_from + digest; for these only "returns, within the allocation bound" is checked',
-                  'identify: on_outbound_substream decodes and filters inside an async block that no add-only hook can call; the harness '
-                  'runs the real prost decoder and the real multiaddr calls through a TRANSCRIPTION of the ~40 lines of filter logic; '
-                  'bitswap on_message_received likewise (Cid::read_bytes filter transcribed, block_to_response and Prefix::from_bytes are '
-                  'the real functions via wrappers)',
-                  'the allocation counter is a #[global_allocator] wrapper in the harness: peak of (allocated - freed) bytes between '
-                  'entering and leaving the decode call, input container included; the bound constants (96 bytes per input byte + 16 KiB; '
-                  '+ 6 KiB per converted Kademlia peer, at most 2k+1 alive; frame receive: max + 2|stream| + 16 KiB) are measured, '
-                  'stated in Model.v and mirrored in harness/src/c19/run.rs',
-                  'PeerId::from_bytes is C18\'s model (coq/C18), Message::decode / LengthDelimited are C03\'s model (coq/C03), reused',
-                  'hooks: prost schema re-exports, KademliaPeer::verif_connection, bitswap verif_prefix_from_bytes / verif_prefix_to_bytes / '
-                  'verif_block_to_response, substream verif_read_payload_size, and the substream carrier arm Substream::new_verif '
-                  '(cherry-picked unchanged from the C04 workspace)'],
- 'level_text': 'Proof, for executable models of every decoder named by the property. Protobuf layer (prost): a tokeniser with groups and '
-               'recursion limit whose fuel S|input| is proved never to run out and to be irrelevant beyond that, tokens + payload <= '
-               '|input| (and <= |input|/2 tokens), and decode(encode fs) = fs for all well-formed token lists. Per schema (Kademlia '
-               'Message/Record/Peer, identify, bitswap Message/Wantlist/Entry/Block/BlockPresence, noise payload + extensions, '
-               'keys.proto): everything materialised (all byte strings + one unit per list element) <= |input|, and decode(encode m) = m '
-               'for every well-formed message. litep2p post-processing: KademliaMessage::from_bytes keeps <= replication_factor peers in '
-               'every list for every input and oracle; each of the nine message.rs encoders decodes back to the value encoded '
-               '(peers: first k); RemotePublicKey::from_protobuf_encoding inverts to_protobuf_encoding; bitswap Prefix::from_bytes inverts '
-               'to_bytes and yields in-range fields; identify keeps a sub-list of the listen addresses. Frame lengths: the varint-framed '
-               'Substream receiver is total, every buffer it allocates and every frame it yields is <= the configured maximum for every '
-               'stream (the check precedes the allocation), frames come out of the stream, send-then-receive is the identity; '
-               'read_payload_size returns sizes < 2^64 in 1..10 bytes and inverts the encoder; multistream LengthDelimited never sizes '
-               'its buffer above 16383 under any read script; Message::decode yields <= 1000 protocols, materialises <= |input| and its '
-               'loop fuel is irrelevant, and the ls response (Message::Protocols, up to 1000 names) round-trips; '
-               'decode_multistream_message (C03\'s model, reused) hands Message::decode a slice of the payload, leaves a strictly '
-               'shorter rest, refuses EVERY declared length beyond what is left (no offset arithmetic, so lengths next to 2^64 '
-               'included), register_response\'s loop fuel is irrelevant and the listener\'s reply is within MAX_FRAME_SIZE or the echoed payload. Panic-freedom of the Rust code is established by differential testing against these total '
-               'functions (tested, not proved).',
- 'level_note': 'Tested only (diffed against "returns, no panic, within the allocation bound", no model of their own): '
-               'Multiaddr::try_from, Cid::read_bytes, the curve-point check, multihash digests. Modelled and diffed but tied to the '
-               'inline Rust code by transcription: identify address filtering, bitswap wantlist/presence filtering. Not proved: '
-               'UTF-8 validation is modelled (table 3-7) without theorems; the numeric allocation constants are measurements. '
-               'Left out: the webrtc.proto message, PrivateKey of keys.proto, TLS certificate parsing, yamux / noise frame decoding '
-               '(C02), the stream-based listener_select/dialer_select state machines (C03 runs and models them), the Identity(n) codec and re-polling a Substream after an error (C04: panics there are its findings). '
-               'ProtocolCodec::UnsignedVarint(None) has no limit to enforce: the model shows 10 bytes requesting 2^63 bytes '
-               '(Example C19_ex_unbounded_without_limit); no built-in protocol uses it and the harness runs it only with tiny lengths. '
-               'TTL of a record is re-based on Instant::now() by the encoder, so round trips use records without expiry.',
+ 'rule': 'the driver generates byte strings and hands each to a WORKER PROCESS (same binary) that runs the real litep2p decoder under '
+         'catch_unwind with a #[global_allocator] counter (peak bytes allocated during the call) and answers with the completed case '
+         '(oracle dictionary for the curve check and digests) and the trace; a worker that dies (abort, stack overflow, failed '
+         'allocation) or is silent for 10 s yields ABORT / TIMEOUT and is replaced. Streams: (i) corpus/C19 witnesses; (ii) systematic: '
+         'for fixed seeds of every protobuf kind EVERY truncation offset and, for every length-delimited node, the declared length '
+         'replaced by each extreme (0/1/127/128/2^14/2^32-1/2^63/2^64-1 and 2^64-1-k); depth bombs 1/50/98..102/500; ls responses of '
+         '999/1000/1001 protocols and with every extreme entry length; every extreme frame length in natural/9/10/11-byte form under '
+         'limits {64, 70 KiB}; message-based multistream (webrtc_listener_negotiate, register_response) with every extreme in the first '
+         'message and after a valid header, every truncation; NOISE TRANSPORT (C02 case format and model): read-ahead factor 1 and 2, '
+         'the wire laid out so that a frame header starts d = 0..19, 64, 300 bytes before the end of the read-ahead window, that '
+         'header flipped to >= 65280 / to zero / high bit, garbage ciphertext, the frame before it damaged, frames dropped / duplicated '
+         '/ swapped, the wire cut 0..3 bytes into the header; SUBSTREAM CODECS (C04 format and model): every extreme under two limits '
+         'polled 6 times (re-polling after the error), Identity(n) for n around the initial buffer with every cut of small payloads; '
+         'STREAM-BASED SELECT (C03 mode 3): one real listener / dialer future against every truncation of header+proposal and every '
+         'extreme length (1/2/3/10-byte form) first and after a header; yamux frames of every type/flag with extreme lengths; multiaddr / '
+         'CID / prefix / peer-id truncations; (iii) seeded random cases from protobuf-aware tree generators with tree- and byte-level '
+         'mutation for Kademlia, keys, noise payload, identify, bitswap; multistream messages; framed streams; the whole multiaddr protocol '
+         'table with extreme inner lengths; CIDs; yamux streams; Noise / codec / select scenarios; round trips of VALUES through the '
+         'library encoders. In the thorough tier (or C19_FEATURES=1) a FEATURE WORKER (generated crate with litep2p features quic+webrtc, '
+         'harness/target-c19x) additionally runs the TLS certificate parser on a real certificate truncated at every third offset and '
+         'DER-length-damaged, and the WebRTC extract_framed_message + WebRtcMessage::decode. IDENTIFY and BITSWAP run through their '
+         'REAL event loops (Identify::run / Bitswap::run on a harness-fed TransportService: connection announced, the substream carries '
+         'the bytes, the public IdentifyEvent / BitswapEvent is observed). Trace = status, allocation verdict, capped collection size, '
+         'canonical dump of the raw prost struct and of the result (or the embedded property\'s trace); compared with the extracted Coq '
+         'model. prop_ok judges the implementation trace itself: returned (no PANIC/ABORT/TIMEOUT), allocation within the stated bound, '
+         'caps, round trips equal the value; for embedded kinds the C02 / C03 / C04 oracle',
+ 'trusted_base': ['prost 0.13.5, multiaddr 0.18.2, cid 0.11.3, multihash 0.19.5 and unsigned-varint 0.8 are modelled from their '
+                  'sources as read (coq/common/Protobuf.v, coq/C19/Formats.v); the tie is the differential run, not a proof about '
+                  'those crates; prost\'s RECURSION_LIMIT = 100 and the multiaddr protocol table are transcribed',
+                  'oracle dictionary (same library calls the implementation makes) only for the ed25519 point check and the '
+                  'multihash digests of bitswap blocks',
+                  'opaque, checked only for "returns, no panic, allocation within the bound": the yamux crate behind '
+                  'litep2p::yamux::Connection (bound 4 MiB) and the TLS certificate parser (x509-parser / webpki / yasna; bound '
+                  '96|der| + 80 KiB)',
+                  'Noise transport, substream codecs and stream-based select reuse the models, oracles and scenario runners of '
+                  'C02 / C04 / C03 unchanged (coq/C19/E02.v, E03.v, E04.v with compile-time in-sync lemmas; harness sources included '
+                  'as text by harness/build.rs + src/c19/ext.rs); their allocation is pinned by their own traces (buffer sizes), the '
+                  'C19 allocation field only guards against runaway growth (256 MiB)',
+                  'the allocation counter is a #[global_allocator] wrapper: peak of (allocated - freed) bytes during the call; for '
+                  'the identify / bitswap event loops from handing over the substream onwards; bounds: 96 bytes per input byte + '
+                  '16 KiB; + 6 KiB per converted Kademlia peer (<= 2k+1 alive); frame receive max + 2|stream| + 16 KiB',
+                  'hooks: prost schema re-exports, KademliaPeer::verif_connection, bitswap prefix/block wrappers, '
+                  'verif_read_payload_size, Substream::new_verif, verif_identify_task / verif_bitswap_task (the real event loops on '
+                  'TransportService::verif_new), verif_tls_parse / verif_tls_generate (verif+quic), webrtc::verif re-exports'],
+ 'level_text': 'Proof, for executable models of every decoder named by the property. Protobuf layer (prost): tokeniser with groups and '
+               'recursion limit, fuel S|input| proved sufficient and irrelevant, tokens + payload <= |input|, decode(encode) = id. Per '
+               'schema (Kademlia, identify, bitswap, noise payload, keys.proto, webrtc.proto): materialised size <= |input| and '
+               'decode(encode m) = m. litep2p post-processing: from_bytes keeps <= replication_factor peers; the nine message.rs encoders, '
+               'RemotePublicKey, bitswap Prefix, WebRtcMessage round-trip. Frame lengths: Substream receiver total, every buffer <= the '
+               'configured maximum (checked first), send/receive identity; read_payload_size; LengthDelimited <= 16383; Message::decode '
+               '<= 1000 protocols, fuel irrelevant, ls response round-trips; decode_multistream_message slices inside the payload and '
+               'refuses every length beyond it (incl. next to 2^64); WebRTC frames <= 16384 checked before buffering. Formats: '
+               'multihash <= 64 digest bytes, CID <= min(|input|, 104), multiaddr component loop total with all inner lengths '
+               'bounded by the remaining input. UTF-8: the table-3-7 acceptor is sound and complete against "concatenation of '
+               'shortest-form encodings of scalar values". Embedded (theorems of C02 / C03 / C04 apply to the reused models). '
+               'Panic-freedom of the Rust code is established by differential testing against these total functions.',
+ 'level_note': 'Known finding class 1 (third party): yamux 0.13.10 computes `credit + DEFAULT_CREDIT` of a WindowUpdate|SYN frame in u32: '
+               'panic where overflow checks are compiled in, silent wrap in release builds (C19_yamux_syn_credit_refuted / _partial; '
+               'inputs containing the trigger are classed, the first-frame case is predicted exactly). Tested only (opaque): yamux '
+               'connection, TLS certificate parser, ed25519 point check, digests. Quick tier does not run the TLS / WebRTC kinds '
+               '(they need litep2p built with quic+webrtc: thorough tier or C19_FEATURES=1). Dropped: keys.proto PrivateKey (the '
+               'generated type is not referenced anywhere, not reachable from network input); yamux frame headers are parsed only by '
+               'the yamux crate, litep2p\'s own yamux/ directory is a control wrapper. ProtocolCodec::UnsignedVarint(None) has no '
+               'limit to enforce (Example C19_ex_unbounded_without_limit). TTL of a record is re-based on Instant::now() by the '
+               'encoder, so round trips use records without expiry. The allocation constants are measurements.',
  'assumptions': ['bytes are below 256 (other inputs are rejected by the case decoder)',
                  'byte strings and nested encodings are shorter than 2^64 (hypothesis wf_* of the round-trip theorems)',
                  '64-bit usize; cargo feature `rsa` off',
-                 'the replication factor of a case is <= 100000 and stream cases stay below ~20 kB so that the extracted model runs in '
-                 'bounded stack']}
+                 'the replication factor of a case is <= 100000 and stream cases stay below ~20 kB (Noise scenarios are '
+                 'length-level) so that the extracted model runs in bounded stack']}
